@@ -827,6 +827,9 @@ func (env *SpecEnv) evalCall(n *SNode, c *ast.CallExpr) Val {
 				if o == nil {
 					o = env
 				}
+				if v.K == VSlice {
+					v = v.Parts[0]
+				}
 				return TV(And(Not(Eq(v.T, TNull)), Not(o.st.isAlloc(v.T)), env.st.isAlloc(v.T)))
 			case "hasPrefix":
 				a, b := env.evalGo(n, c.Args[0]), env.evalGo(n, c.Args[1])
